@@ -13,13 +13,24 @@ storage hands them back* — a signature travels through its JSON form, which ha
 (`LargeMinHash` comes back as `MinHash`) and whose reader drops `num` when `max_hash ≠ 0`
 (`stored`); `rdb` first needs a `CollectionSet` (`collectionSetCheck`).  Locations are reported as
 the signature's position, as memory storage names them.  `fsm` (all signatures in ONE file):
-`Storage::load_sig` keeps the first signature of the file (`swap_remove(0)`), whatever the record. -/
+`Storage::load_sig` keeps the first signature of the file (`swap_remove(0)`), whatever the record.
+
+`mcsv` + `lookup i csv|csvzip`: the manifest is what `Manifest::from_reader` makes of a document that
+was not written by this crate (respelled molecule types / booleans / integers, other column order);
+the spec column still demands the sketch the row describes.  `readm`: the records read replace the
+case's manifest, so `isect` / `cisect` / `superset` are also asked of records that came out of the
+reader.  Spec of `isect` / `cisect` / `superset`: two records are *the same record* when they agree
+in every column except `internal_location` / `md5short`, the molecule type compared as
+`Record::moltype()` reports it (the raw column has no other observer). -/
 open Driver Select Scaled
 
 structure St where
   recs : List Record := []
   sigs : List Sig := []
   md5s : List (Sketch × Select.Bytes) := []
+  /-- rows read by `mcsv` (locations already reduced to the signature's position), and for each row
+      the flat index of the sketch it describes -/
+  csv : Option (List Record × List Nat) := none
 
 def seed0 : Nat := 1000
 
@@ -48,6 +59,22 @@ def descr (md5 : Select.Bytes) (s : Sketch) : String :=
     toString s.scaled, (if s.tracked then "1" else "0"), (match s.container with | .vec => "v" | .tree => "t"),
     toString s.mins.length, showNats s.mins, showNats s.abunds,
     String.fromUTF8! (ByteArray.mk md5.toArray)]
+
+/-- `signatures/d<i>.sig` → `<i>` (what the harness prints, and what memory storage uses as key) -/
+def canonLoc (b : Select.Bytes) : Select.Bytes :=
+  let pre := "signatures/d".toUTF8.toList
+  let suf := ".sig".toUTF8.toList
+  if b.take pre.length == pre && b.drop (b.length - suf.length) == suf && b.length > pre.length + suf.length then
+    (b.drop pre.length).take (b.length - pre.length - suf.length)
+  else b
+
+/-- spec-level "the same record": every column but location / md5short, the molecule type as parsed -/
+def sameRec (x y : Record) : Bool :=
+  let strip (r : Record) : Record := { r with internalLocation := [], md5short := [], moltype := [] }
+  decide (strip x = strip y) &&
+    (match x.mol?, y.mol? with
+     | some a, some b => decide (a = b)
+     | _, _ => x.moltype == y.moltype)
 
 def pickIdx (st : St) (s : String) : List Record := (natList s).map (fun i => st.recs[i]!)
 
@@ -106,6 +133,25 @@ def lookupStored (st : St) (i : Nat) (be : String) : Resp :=
   match storedParts md5of 0 sigs with
   | none => { model := "PANIC" }
   | some (recs, sts) =>
+    if be == "csv" || be == "csvzip" then
+      match st.csv with
+      | none => { model := "err CsvError" }
+      | some (rows, map) =>
+        let spec := match (map[i]?).bind (fun j => flat[j]?) with
+          | some (si, s) => toString si ++ "=" ++ descr (md5of s) s
+          | none => "-"
+        if be == "csvzip" then
+          { model := showLookup md5of { manifest := rows, storage := sts } i, spec := spec }
+        else
+          -- memory storage: the signatures as they are, turned into `SigStore`s when saved
+          let flat0 := (st.sigs.zipIdx.map (fun (sg, si) => sg.sketches.map (fun s => (si, s)))).flatten
+          let spec0 := match (map[i]?).bind (fun j => flat0[j]?) with
+            | some (si, s) => toString si ++ "=" ++ descr (md5of s) s
+            | none => "-"
+          match Collection.fromSigs md5of st.sigs with
+          | none => { model := "PANIC" }
+          | some c => { model := showLookup md5of { c with manifest := rows } i, spec := spec0 }
+    else
     if be == "fsm" then
       -- one file: every record points at it, `load_sig` returns its first signature
       let c' : Collection :=
@@ -154,16 +200,44 @@ def stepC12 (st : St) (ws : List String) : St × Resp :=
     (st, { model := match Manifest.fromReader (unhex bs) with
                     | some l => showRecords l
                     | none => "err CsvError" })
-  | ["isect", a, b] =>
-    let ra := pickIdx st a
-    let rb := pickIdx st b
-    -- spec: rows of `a` that agree with some row of `b` on every field but location/md5short, in order
-    let same (x y : Record) : Bool :=
-      decide ({ x with internalLocation := [], md5short := [] } = { y with internalLocation := [], md5short := [] })
-    (st, { model := showRecords (Manifest.intersect ra rb),
-           spec := showRecords (ra.filter (fun x => rb.any (same x))) })
-  | ["sig", n, f] =>
-    ({ st with sigs := st.sigs ++ [{ name := optBytes n, filename := optBytes f, sketches := [] }] }, { model := "ok" })
+  | ["readm", bs] =>
+    (match Manifest.fromReader (unhex bs) with
+     | some l => ({ st with recs := l }, { model := showRecords l })
+     | none => (st, { model := "err CsvError" }))
+  | ["mcsv", doc, map] =>
+    (match Manifest.fromReader (unhex doc) with
+     | some l =>
+       ({ st with csv := some (l.map (fun r => { r with internalLocation := canonLoc r.internalLocation }), natList map) },
+        { model := showRecords l })
+     | none => (st, { model := "err CsvError" }))
+  | [op, a, b] =>
+    if op == "isect" || op == "cisect" then
+      let ra := pickIdx st a
+      let rb := pickIdx st b
+      -- spec: rows of `a` that are the same record as some row of `b`, in order
+      (st, { model := showRecords (Manifest.intersect ra rb),
+             spec := showRecords (ra.filter (fun x => rb.any (sameRec x))) })
+    else if op == "superset" then
+      let ra := pickIdx st a
+      let rb := pickIdx st b
+      (st, { model := match Manifest.checkSuperset ra rb with
+                      | some n => "ok " ++ toString n
+                      | none => "err MismatchKSizes",
+             spec := if (ra.zip rb).all (fun p => sameRec p.1 p.2) then "ok " ++ toString ra.length
+                     else "err MismatchKSizes" })
+    else if op == "lookup" then (st, lookupStored st a.toNat! b)
+    else if op == "fromsig" then
+      let sg := st.sigs[a.toNat!]!
+      let md5of := md5Lookup st.md5s
+      (st, { model := match fromSig md5of sg (unhex b) with
+                      | some l => showRecords l
+                      | none => "PANIC",
+             spec := match fromSigSpec md5of sg (unhex b) with
+                     | some l => showRecords l
+                     | none => "-" })
+    else if op == "sig" then
+      ({ st with sigs := st.sigs ++ [{ name := optBytes a, filename := optBytes b, sketches := [] }] }, { model := "ok" })
+    else (st, { model := "bad-op" })
   | ["sk", k, m, n, sc, tr, c, mins, abunds, md5] =>
     match st.sigs.reverse with
     | [] => (st, { model := "bad-op" })
@@ -175,15 +249,6 @@ def stepC12 (st : St) (ws : List String) : St × Resp :=
       let sg' := { sg with sketches := sg.sketches ++ [sk] }
       let md5b := md5.toUTF8.toList
       ({ st with sigs := (sg' :: before).reverse, md5s := st.md5s ++ [(sk, md5b)] }, { model := descr md5b sk })
-  | ["fromsig", i, loc] =>
-    let sg := st.sigs[i.toNat!]!
-    let md5of := md5Lookup st.md5s
-    (st, { model := match fromSig md5of sg (unhex loc) with
-                    | some l => showRecords l
-                    | none => "PANIC",
-           spec := match fromSigSpec md5of sg (unhex loc) with
-                   | some l => showRecords l
-                   | none => "-" })
   | ["lookup", i] =>
     let i := i.toNat!
     let md5of := md5Lookup st.md5s
@@ -201,7 +266,6 @@ def stepC12 (st : St) (ws : List String) : St × Resp :=
           String.fromUTF8! (ByteArray.mk ((c.manifest[i]!).internalLocation.toArray)) ++ "=" ++
             (if sg.sketches.isEmpty then "-" else ";".intercalate (sg.sketches.map (fun s => descr (md5of s) s)))
       (st, { model := model, spec := spec })
-  | ["lookup", i, be] => (st, lookupStored st i.toNat! be)
   | ["zipcheck", _] => (st, { model := "-", spec := "faithful" })
   | _ => (st, { model := "bad-op" })
 
